@@ -197,7 +197,10 @@ def find_in_scope(
             if strip_str == inc.path:
                 if inc.file is None:
                     return None
-                return Include(inc.file.ast, inc.line_number, inc.path)
+                # The object lives in the included file, which may be shorter than
+                # the line number of the INCLUDE statement in the including file
+                inc_line = max(1, min(inc.line_number, inc.file.nLines))
+                return Include(inc.file.ast, inc_line, inc.path)
 
     # Setup USE search
     use_dict = get_use_tree(scope, {}, obj_tree)
